@@ -18,14 +18,28 @@ def cond(sh):
     return "%s %s %s" % (x, sh["cmp"], y)
 
 
-def emit(sh, k, twin):
+CONTEXTS = ("single", "nested", "sibling", "const")
+
+
+def emit(sh, k, twin, ctx="single", consts=None, name=None):
+    """ctx embeds the SAME loop in another context (Loop.tla describes the loop itself; for `nested`
+    the twin observes its first entry only):
+      single   the loop alone, bounds are parameters
+      nested   inside `for o := 0; o < 2; o++`
+      sibling  followed by a second, unrelated loop
+      const    start and limit are the constants consts=(a, n)"""
     t = "uint8" if sh["width"] == 8 else "int"
     st = sh["step"]
     upd = "i += %d" % st if st > 0 else "i -= %d" % (-st)
+    if sh["extra"] == "revsub":
+        upd = "i = %d - i" % st
     c = cond(sh)
-    name = ("T%d" if twin else "P%d") % k
+    name = name or ("T%d" if twin else "P%d") % k
     H = "\t\thdr = append(hdr, [2]int{int(i), s})\n\t\tif len(hdr) > 400 {\n\t\t\treturn hdr, -1\n\t\t}\n" if twin else ""
     B = "\t\titers++\n" if twin else ""
+    if twin and ctx == "nested":
+        H = "\t\tif o == 0 {\n\t" + H.replace("\n\t\t", "\n\t\t\t").rstrip("\t") + "\t\t}\n"
+        B = "\t\tif o == 0 {\n\t\t\titers++\n\t\t}\n"
     pay = "\t\ts += int(i)*2 + 1\n"
     cont = "\t\tif i%3 == 0 {\n\t\t\tcontinue\n\t\t}\n" if sh["extra"] == "cont" else ""
     if sh["extra"] == "condupd":
@@ -33,8 +47,12 @@ def emit(sh, k, twin):
     else:
         updblock = "\t\t%s\n" % upd
     sig = "func %s(a, n %s) %s {\n" % (name, t, "(hdr [][2]int, iters int)" if twin else "int")
+    if ctx == "const":
+        sig = "func %s() %s {\n\tconst a %s = %d\n\tconst n %s = %d\n" % (
+            name, "(hdr [][2]int, iters int)" if twin else "int", t, consts[0], t, consts[1])
     ret = "\treturn hdr, iters\n}\n" if twin else "\treturn s\n}\n"
-    body = "\ts := 0\n"
+    pre = "\ts := 0\n"
+    body = ""
     if sh["pos"] == "top":
         if sh["stay"]:
             if sh["extra"] == "condupd":
@@ -53,25 +71,32 @@ def emit(sh, k, twin):
     else:
         test = ("if !(%s) {" % c) if sh["stay"] else ("if %s {" % c)
         body += "\ti := a\n\tfor {\n%s%s%s%s\t\t%s\n\t\t\tbreak\n\t\t}\n\t}\n" % (H, B, pay, updblock, test)
-    return sig + body + ret
+    if ctx == "nested":
+        body = "\tfor o := 0; o < 2; o++ {\n" + "".join("\t" + l + "\n" for l in body.splitlines()) + "\t}\n"
+    elif ctx == "sibling":
+        body += "\tfor j := 0; j < 3; j++ {\n\t\ts -= j\n\t}\n"
+    return sig + pre + body + ret
 
 
-def render(shapes, pkg="loops"):
-    """shapes: list of shape dicts; returns (analysed source, twin program source)."""
+def render(items, pkg="loops"):
+    """items: list of (shape, ctx, consts); returns (analysed source, twin program source)."""
     a = ["package %s\n\n" % pkg]
-    for k, sh in enumerate(shapes):
-        a.append("// %s\n" % shape_key(sh))
-        a.append(emit(sh, k, False))
+    for k, (sh, ctx, consts) in enumerate(items):
+        a.append("// %s %s\n" % (ctx, shape_key(sh)))
+        a.append(emit(sh, k, False, ctx, consts))
         a.append("\n")
     t = ["package main\n\nimport (\n\t\"encoding/json\"\n\t\"os\"\n)\n\n"]
-    for k, sh in enumerate(shapes):
-        t.append(emit(sh, k, True))
+    for k, (sh, ctx, consts) in enumerate(items):
+        t.append(emit(sh, k, True, ctx, consts))
         t.append("\n")
     t.append("type kase struct {\n\tFn int `json:\"fn\"`\n\tA  int `json:\"a\"`\n\tN  int `json:\"n\"`\n}\n\n")
     t.append("func run(c kase) ([][2]int, int) {\n\tswitch c.Fn {\n")
-    for k, sh in enumerate(shapes):
+    for k, (sh, ctx, consts) in enumerate(items):
         ty = "uint8" if sh["width"] == 8 else "int"
-        t.append("\tcase %d:\n\t\treturn T%d(%s(c.A), %s(c.N))\n" % (k, k, ty, ty))
+        if ctx == "const":
+            t.append("\tcase %d:\n\t\treturn T%d()\n" % (k, k))
+        else:
+            t.append("\tcase %d:\n\t\treturn T%d(%s(c.A), %s(c.N))\n" % (k, k, ty, ty))
     t.append("\t}\n\treturn nil, -2\n}\n\n")
     t.append("func main() {\n\tvar cases []kase\n\tb, _ := os.ReadFile(os.Args[1])\n\tjson.Unmarshal(b, &cases)\n"
              "\tout := make([]map[string]interface{}, 0, len(cases))\n\tfor _, c := range cases {\n\t\th, it := run(c)\n"
